@@ -52,7 +52,8 @@ def base_mesh(rng, kind, thin):
         V, F = M.box((1.0, 1.3, thin))
     elif kind == "two_parts":
         A, B = M.box((1, 1, 1)), M.convex_hull(rng, 7)
-        VB = B[0] - B[0].mean(axis=0) + np.array([4.0, 0.3, 0.1])
+        VB = B[0] - B[0].mean(axis=0)
+        VB = VB / np.abs(VB).max() + np.array([4.0, 0.3, 0.1])  # extent <= 1 about its centre: gap to the box >= 2.5
         V, F = M.union([A, (VB, B[1])])
         truth["disconnected"] = True
     elif kind == "interpenetrating":
@@ -106,7 +107,7 @@ def check_mesh(ctx, case, V, F, truth, canonical):
     ctx.count("orientation_checks")
     if not M.all_outward(np.array(m.vertices), Fr):
         bad = [c for c in M.components(Fr) if M.signed_volume(np.array(m.vertices), Fr[c]) <= 0 or not M.consistently_oriented(Fr[c])]
-        ctx.violation({**key, "kind": "not-all-faces-outward-after-reorientation", "thin": case.get("thin", 1.0) < 1e-2}, case,
+        ctx.violation({**key, "kind": "not-all-faces-outward-after-reorientation", "thickness<=1e-4": case.get("thin", 1.0) <= 1e-4}, case,
                       {"components": len(M.components(Fr)), "bad_components": len(bad)})
         return
     # the field must not depend on order / winding / numbering
